@@ -914,6 +914,8 @@ func luaModulo(lhs, rhs LNumber) LNumber {
 	v := math.Mod(flhs, frhs)
 	if frhs > 0 && v < 0 || frhs < 0 && v > 0 {
 		v += frhs
+	} else if v == 0 {
+		v = 0 // a - floor(a/b)*b vanishes as +0; math.Mod keeps the sign of the dividend
 	}
 	return LNumber(v)
 }
